@@ -584,6 +584,17 @@ def warm_digest(spec):
                         ds.get_ask(ts(d * 1440 + m).tz_convert(zone), "EQ:" + a)
                     except Exception:
                         pass
+        # one data HANDLER object for both sessions as well, after it has answered for instants before the assets' first bars
+        from qstrader.data.backtest_data_handler import BacktestDataHandler
+        shared_dh = BacktestDataHandler(None, data_sources=[ds])
+        for a in syms:
+            for m in (c["start"] - 40000, c["start"] - 20000, c["start"] - 1):
+                try:
+                    shared_dh.get_asset_latest_bid_price(ts(m), "EQ:" + a)
+                    shared_dh.get_asset_latest_ask_price(ts(m), "EQ:" + a)
+                    shared_dh.get_asset_latest_mid_price(ts(m), "EQ:" + a)
+                except Exception:
+                    pass
         outs = []
         for _ in range(2):        # the first session warms the very instants the second will ask for
             kw = {}
@@ -594,7 +605,7 @@ def warm_digest(spec):
                 from qstrader.alpha_model.fixed_signals import FixedSignalsAlphaModel
                 w = dict((sr.SYM[a], v / float(spec["wdiv"])) for a, v in c["weights"].items())
                 kw["alpha_factory"] = lambda signals, universe, dh, w=w: FixedSignalsAlphaModel(w)
-            outs.append(_run_with_sources(c, d, [ds], **kw))
+            outs.append(_run_with_sources(c, d, [ds], data_handler=shared_dh, **kw))
         return digest_outcome(outs[1])[0]
     except Exception:
         return None
@@ -677,11 +688,11 @@ def two_source_digests(spec, runs=6):
         shutil.rmtree(d2, ignore_errors=True)
 
 
-def _run_with_sources(c, csv_dir, sources, signals_factory=None, alpha_factory=None):
+def _run_with_sources(c, csv_dir, sources, signals_factory=None, alpha_factory=None, data_handler=None):
     out = sr.Outcome()
     ob = sr.Observer()
     with ob.installed():
-        sess = sr.build_session(c, csv_dir, signals_factory, alpha_factory, data_sources=sources)
+        sess = sr.build_session(c, csv_dir, signals_factory, alpha_factory, data_sources=sources, data_handler=data_handler)
         sess.qts.portfolio_construction_model = sr._PcmProxy(sess.qts.portfolio_construction_model, out)
         try:
             with sr.quiet(c):
